@@ -37,6 +37,8 @@ class QuadratureRule:
         """Hash."""
         if self._hash is None:
             self.hash_obj = hashlib.sha1(self.points)
+            # Rules with equal points and different weights are different rules
+            self.hash_obj.update(np.ascontiguousarray(self.weights))
             self._hash = int(self.hash_obj.hexdigest(), 32)
         return self._hash
 
